@@ -2,6 +2,7 @@ package lang
 
 import (
 	"os"
+	"strings"
 	"unicode/utf8"
 )
 
@@ -183,6 +184,56 @@ func (s EditSpace) Gen(i int64, emit func(Input)) {
 	})
 }
 
+// ByteSweepSpace: every single byte value 0x00..0xff inserted at, and substituted
+// for, every byte position of each base (one item per base and position chunk).
+type ByteSweepSpace struct {
+	Label string
+	Bases []string
+}
+
+func (s ByteSweepSpace) Name() string { return s.Label }
+func (s ByteSweepSpace) Count() int64 { return int64(len(s.Bases)) * 8 }
+func (s ByteSweepSpace) Gen(i int64, emit func(Input)) {
+	base := s.Bases[i/8]
+	chunk := int(i % 8)
+	for pos := 0; pos <= len(base); pos++ {
+		if pos%8 != chunk {
+			continue
+		}
+		for b := 0; b < 256; b++ {
+			emit(Input{Text: base[:pos] + string([]byte{byte(b)}) + base[pos:], Desc: s.Label})
+			if pos < len(base) {
+				emit(Input{Text: base[:pos] + string([]byte{byte(b)}) + base[pos+1:], Desc: s.Label})
+			}
+		}
+	}
+}
+
+// LongLineSpace: short inputs (every string of <= N alphabet symbols) placed below a
+// very long line (a comment, a string value, a dependency list, a command), so that
+// anything sized by "a reasonable line" or "a reasonable token" is exceeded.
+type LongLineSpace struct {
+	Label string
+	N     int
+	Len   int
+}
+
+func (s LongLineSpace) Name() string { return s.Label }
+func (s LongLineSpace) Count() int64 { return SigmaSpace{N: s.N}.Count() }
+func (s LongLineSpace) Gen(i int64, emit func(Input)) {
+	long := strings.Repeat("x", s.Len)
+	SigmaSpace{N: s.N}.Gen(i, func(in Input) {
+		for _, pre := range []string{
+			"# " + long + "\n",
+			"X := \"" + long + "\"\n",
+			"task t(\"" + long + "\") {\n    echo " + long + "\n}\n",
+		} {
+			emit(Input{Text: pre + in.Text, Desc: s.Label})
+			emit(Input{Text: in.Text + "\n" + pre, Desc: s.Label})
+		}
+	})
+}
+
 // CanonicalBases renders every normal file of n statements over alpha canonically.
 func CanonicalBases(alpha []Stmt, n int, maxLen int) []string {
 	sp := StructSpace{Alpha: alpha, N: n}
@@ -242,6 +293,16 @@ func Spaces(tier string, forC06 bool, repo string) []Space {
 	bases = append(bases, CanonicalBases(SmallStatements(), 2, 0)...)
 	sp = append(sp, EditSpace{Label: "edit1", Bases: bases})
 	sp = append(sp, EditSpace{Label: "edit1-repo", Bases: RepoBases(repo), Chunks: 64})
+	sweep := []string{"# c\nX := \"x\"\n", "task a(\"x\", b) -> (\"o\", X) {\n    echo {{.X}}\n}\n", "Y := join(\"a\", \"b\")\ntask b() { go test }\n"}
+	if thorough {
+		sweep = append(sweep, CanonicalBases(ReducedStatements(true), 1, 0)...)
+	}
+	sp = append(sp, ByteSweepSpace{Label: "byte-sweep", Bases: sweep})
+	ll := LongLineSpace{Label: "long-lines", N: 2, Len: 70000}
+	if thorough {
+		ll.N = 3
+	}
+	sp = append(sp, ll)
 	if thorough {
 		sp = append(sp, EditSpace{Label: "edit2", Bases: CanonicalBases(ReducedStatements(true), 1, 40), Pairs: true, Chunks: 32})
 	} else {
